@@ -479,3 +479,47 @@ Proof.
   intros Hc Ha Hd Hs. replace (length stream + 3)%nat with (length stream + 3 + 0)%nat by lia.
   apply (spec_conforming_succeeds stream cap [] stream sc); auto. rewrite (accepting_no_drops _ Ha). cbn. unfold retry_limit. lia.
 Qed.
+
+(* ---------- OCI-layout destination ---------- *)
+Lemma layout_put_exact declared dsize stream store d size store' :
+  layout_put declared dsize stream store = (LOk d size, store') ->
+  d = stream /\ size = zlen stream /\ store' = (stream, stream) :: store /\
+  (declared <> None -> declared = Some stream) /\ (0 < dsize -> dsize = zlen stream).
+Proof.
+  unfold layout_put. destruct declared as [g|].
+  - destruct (beq g stream) eqn:Eg; cbn [negb]; [|discriminate]. apply beq_eq in Eg. subst g.
+    destruct ((0 <? dsize) && negb (zlen stream =? dsize)) eqn:E; [discriminate|].
+    intro H; injection H as <- <- <-. repeat split; auto.
+    intro Hd. apply andb_false_iff in E as [E|E]; [apply Z.ltb_ge in E; lia|apply negb_false_iff, Z.eqb_eq in E; congruence].
+  - destruct ((0 <? dsize) && negb (zlen stream =? dsize)) eqn:E; [discriminate|].
+    intro H; injection H as <- <- <-. repeat split; auto; try congruence.
+    intro Hd. apply andb_false_iff in E as [E|E]; [apply Z.ltb_ge in E; lia|apply negb_false_iff, Z.eqb_eq in E; congruence].
+Qed.
+Lemma layout_put_fail declared dsize stream store r store' :
+  layout_put declared dsize stream store = (r, store') -> (forall d n, r <> LOk d n) -> store' = store.
+Proof.
+  unfold layout_put. destruct declared as [g|].
+  - destruct (negb (beq g stream)); [intro H; now injection H as _ <-|].
+    destruct ((0 <? dsize) && negb (zlen stream =? dsize)); [intro H; now injection H as _ <-|].
+    intro H; injection H as <- _. intro Hn. exfalso. eapply Hn; reflexivity.
+  - destruct ((0 <? dsize) && negb (zlen stream =? dsize)); [intro H; now injection H as _ <-|].
+    intro H; injection H as <- _. intro Hn. exfalso. eapply Hn; reflexivity.
+Qed.
+Lemma layout_put_mismatch g dsize stream store :
+  (g <> stream \/ (0 < dsize /\ dsize <> zlen stream)) ->
+  forall d n, fst (layout_put (Some g) dsize stream store) <> LOk d n.
+Proof.
+  intros Hm d n H. destruct (layout_put (Some g) dsize stream store) as [r st] eqn:E. cbn in H. subst r.
+  destruct (layout_put_exact _ _ _ _ _ _ _ E) as (_ & _ & _ & Hd & Hs).
+  destruct Hm as [Hg|[Hz Hl]]; [specialize (Hd ltac:(discriminate)); congruence|auto].
+Qed.
+Lemma layout_put_succeeds declared dsize stream store :
+  (declared = None \/ declared = Some stream) -> (dsize <= 0 \/ dsize = zlen stream) ->
+  layout_put declared dsize stream store = (LOk stream (zlen stream), (stream, stream) :: store).
+Proof.
+  intros Hd Hs. unfold layout_put.
+  assert (E : (0 <? dsize) && negb (zlen stream =? dsize) = false).
+  { destruct Hs as [Hs|Hs]; [replace (0 <? dsize) with false by (symmetry; apply Z.ltb_ge; lia); reflexivity|].
+    rewrite Hs, Z.eqb_refl. apply andb_false_r. }
+  destruct Hd as [->| ->]; [now rewrite E|]. now rewrite beq_refl, E.
+Qed.
